@@ -24,6 +24,8 @@ class ScriptReceiver(PyObj):
         self.coords = coords
         self.batches = [list(b) for b in batches]    # per sender: list of batches (lists of elements)
         self.max_timeouts = max_timeouts
+        self.adaptive = False
+        self.forced = False
         self.log = []                                # ('batch', sender, [elements]) | ('timeout',)
         self.ended = [0] * len(coords)               # iterations ended per sender
 
@@ -33,6 +35,12 @@ class ScriptReceiver(PyObj):
         # (a replica that finished its last iteration may send Terminate while the others are still running)
         avail = [i for i, b in enumerate(self.batches) if b and (self.ended[i] <= low or
                                                                    all(e.variant == 'Terminate' for e in b[0]))]
+        if not allow_timeout and self.adaptive and not self.forced and hlib.unflushed(ex):
+            # C18: adaptive batching, Start waits WITHOUT a timeout although elements it passed downstream have not
+            # been followed by a FlushBatch / FlushAndRestart.  The producers may pause here; recorded like a timeout,
+            # so the oracle expects the FlushBatch a correct Start would emit and the native replay really pauses.
+            self.forced = True
+            self.log.append(('timeout',))
         nopt = len(avail) + (1 if allow_timeout and self.max_timeouts > 0 else 0)
         if nopt == 0:
             raise Violation('Start waits for a batch although every upstream replica has terminated (deadlock)')
@@ -198,6 +206,7 @@ def start_harness(w, nsenders, iters, max_len, timed=True, cut='any', adaptive=F
             scripts.append(sc)
         batches = [cut_batches(ex, sc, cut) for sc in scripts]
         rx = ScriptReceiver(w, coords, batches, max_timeouts if adaptive else 0)
+        rx.adaptive = bool(adaptive)
         lk = StateLockStub() if lock else None
         from mirsym.models_coll import ArcModel
         st = ex.call_function(new, [rx, some(ArcModel(lk)) if lock else none()])
